@@ -408,3 +408,60 @@ def proxies_ok(ex, st, elist):
     return SV(z3.ForAll([k], z3.Implies(ex.H(st, 'Dd')[P][k],
                                         z3.And(pr > 0, ex.H(st, 'f.ElementProxy.element_list')[pr] == a,
                                                ex.H(st, 'f.ElementProxy.element_name')[pr] == ex.f_upper()(k)))), BOOL)
+
+
+# ---- structure records (C08)
+def _rec(ex, st, obj, cls, field):
+    key = ex.world.field_key(cls, field)
+    return ex.H(st, key)[ex.term(obj, 'R')]
+
+
+@specfunc('stack_item')
+def stack_item(ex, st, lst, k):
+    """the k-th (name, reference) tuple object of the parents stack"""
+    return SV(Val.addr(ex.H(st, 'La.V')[lst.term][ex.term(k, 'I')]) if False else ex.H(st, 'La.R')[lst.term][ex.term(k, 'I')],
+              TupleT(ANY, ObjT('RefStruct')))
+
+
+@specfunc('stack_ref')
+def stack_ref(ex, st, lst, k):
+    """the reference (second item) of the k-th stack entry"""
+    t = ex.H(st, 'La.R')[lst.term][ex.term(k, 'I')]
+    return SV(Val.addr(ex.H(st, 'La.V')[t][1]), ObjT('RefStruct'))
+
+
+@specfunc('entry_kind')
+def entry_kind(ex, st, c):
+    return SV(_rec(ex, st, c, 'ChildEntry', 'kind'), STR)
+
+
+@specfunc('is_child_entry')
+def is_child_entry(ex, st, ref, c):
+    kids = _rec(ex, st, ref, 'RefStruct', 'children')
+    j = z3.FreshConst(IntS, 'ce')
+    return SV(z3.Exists([j], z3.And(0 <= j, j < ex.H(st, 'Ll')[kids], ex.H(st, 'La.R')[kids][j] == ex.term(c, 'R'))), BOOL)
+
+
+@specfunc('declares_seg')
+def declares_seg(ex, st, ref, name, r):
+    kids = _rec(ex, st, ref, 'RefStruct', 'children')
+    j = z3.FreshConst(IntS, 'ds')
+    c = ex.H(st, 'La.R')[kids][j]
+    return SV(z3.Exists([j], z3.And(0 <= j, j < ex.H(st, 'Ll')[kids],
+                                    ex.H(st, 'f.ChildEntry.kind')[c] == z3.StringVal('SEG'),
+                                    ex.H(st, 'f.ChildEntry.name')[c] == ex.term(name, 'S'),
+                                    ex.H(st, 'f.ChildEntry.ref')[c] == ex.term(r, 'R'))), BOOL)
+
+
+@specfunc('declares_grp')
+def declares_grp(ex, st, ref, entry):
+    """the stack entry (name, reference) is a declared GRP child of ref"""
+    kids = _rec(ex, st, ref, 'RefStruct', 'children')
+    j = z3.FreshConst(IntS, 'dg')
+    c = ex.H(st, 'La.R')[kids][j]
+    e = ex.term(entry, 'R')
+    arr = ex.H(st, 'La.V')[e]
+    return SV(z3.Exists([j], z3.And(0 <= j, j < ex.H(st, 'Ll')[kids],
+                                    ex.H(st, 'f.ChildEntry.kind')[c] == z3.StringVal('GRP'),
+                                    Val.VStr(ex.H(st, 'f.ChildEntry.name')[c]) == arr[0],
+                                    Val.VRef(ex.H(st, 'f.ChildEntry.ref')[c]) == arr[1])), BOOL)
